@@ -36,6 +36,9 @@ var c20Site = markdown.New(fstest.MapFS{
 	"data/site.yml": &fstest.MapFile{Data: []byte("start: 7\nordered: true\nchecked: true\nlevel: 1\ncode: SITE-CODE\ncontent: SITE-CONTENT\nalign: right\nrows: [[{content: SITE-ROW}]]\nheaders: [{content: SITE-HDR}]\ncell: {content: SITE-CELL, align: center}\n")},
 })
 var c20UseSite bool
+var c20ViaLoad bool
+var c20LoadN int
+var c20FrontMatter = []string{"---\ntitle: T\n---\n", "---\ntitle: T\ntags: [a, b]\nnested:\n  k: v\n---\n\n", "---\ntitle: T\n---\n\n\n"}
 
 func c20Vuego(src string, overrides map[string]string) (out string, err error) {
 	defer func() {
@@ -64,6 +67,23 @@ func c20Vuego(src string, overrides map[string]string) (out string, err error) {
 				done <- fmt.Errorf("PANIC %v", x)
 			}
 		}()
+		if c20ViaLoad && overrides == nil {
+			// the same document as a file of the content file system, behind a front-matter block: Load, then Render
+			fm := c20FrontMatter[c20LoadN%len(c20FrontMatter)]
+			c20LoadN++
+			lm := markdown.New(fstest.MapFS{"docs/page.md": &fstest.MapFile{Data: []byte(fm + src)}})
+			doc, err := lm.Load("docs/page.md")
+			if err != nil {
+				done <- err
+				return
+			}
+			if fm != "" && (doc.FrontMatter() == nil || fmt.Sprint(doc.FrontMatter()["title"]) != "T") {
+				done <- fmt.Errorf("front matter not parsed: %v", doc.FrontMatter())
+				return
+			}
+			done <- doc.Render(&buf)
+			return
+		}
 		done <- md.RenderBytes(&buf, []byte(src))
 	}()
 	select {
@@ -327,8 +347,14 @@ func runC20(r *Run) {
 	for i := 0; i < n; i++ {
 		src := c20Blocks(rr, 2)
 		c20UseSite = i%3 == 2 // every third document through the renderer whose site data defines the templates' names
+		// every fifth document as a file with front-matter, through Load and Document.Render (a document that itself begins
+		// with a thematic break or a setext underline would be taken for more front-matter: those stay with RenderBytes)
+		c20ViaLoad = i%5 == 4 && !strings.HasPrefix(strings.TrimLeft(src, " \n"), "---") && !strings.Contains(src, "\n---")
+		if c20ViaLoad {
+			r.Count("entry:Load+Render")
+		}
 		got, err := c20Vuego(src, nil)
-		c20UseSite = false
+		c20UseSite, c20ViaLoad = false, false
 		if i%3 == 2 {
 			r.Count("renderer:with-site-data")
 		}
